@@ -151,7 +151,7 @@ def rand_test(rng, ctx):
             b = ('7', 'pt')
         if a[1] != b[1] and abs(ML.UNITS[a[1]] * ML.Fraction(a[0]) - ML.UNITS[b[1]] * ML.Fraction(b[0])) < 1:
             b = ('7', 'pt')
-        return ['dim', a, rng.choice('<>='), b]
+        return ['dim', a, rng.choice('<>='), b, rng.choice([0, 0, 0, 1, 2, 3])]
     if r < 0.8 and ctx['nsw']:
         return ['switch', rng.randint(0, ctx['nsw'] - 1)]
     if r < 0.88:
